@@ -2,14 +2,21 @@ CONFIG = {
     "level": "proof",
     "level_text": "Lean theorems (kernel-checked, no sorry/axioms) over unbounded naturals (Go: big.Int) for every pool state, amount and history: deposits mint the floor of the pro-rata share count (1:1 on an empty pool, refused on zero balance with outstanding shares), redemptions pay the floor of the pro-rata worth and redeeming everything empties the pool, neither a deposit nor a redemption lowers the share price so nobody's redeemable value falls through another's operation, no round trip and no interleaving of own deposits/redemptions yields a profit (potential-function argument over arbitrary histories with other delegators, rewards and slashes), the price falls only by slashing, slashing takes the floor of the same fraction from the active and debonding pool (total at most the penalty, value conserved into the common pool), a reclaim moves exactly the redeemed stake into the debonding pool, and a queued debonding delegation is paid exactly once, at the first epoch transition at or after its end epoch and never before. The model is tied to the Go source by a regenerated translation of the straight-line big-integer functions (bridge lemmas) and by the sharedrv correspondence on adversarial integers.",
     "technique": "Lean 4 proof over a Nat model + go/ast translation of the arithmetic with bridge lemmas + correspondence and spec-on-implementation with the real SharePool",
-    "models": ["share"],
+    "models": ["share", "ledger"],
     "regen": [{"kind": "quantity", "out": "SharePoolGen.lean"}],
     "lean_sources": ["OasisModel/Quantity.lean", "OasisModel/Staking/SharePool.lean", "OasisModel/Staking/Debond.lean",
-                     "OasisModel/Staking/ShareDriver.lean", "OasisModel/Proto.lean", "OasisProofs/Helpers/Staking.lean"],
+                     "OasisModel/Staking/ShareDriver.lean", "OasisModel/Staking/Ledger.lean", "OasisModel/Staking/LedgerDriver.lean",
+                     "OasisModel/Proto.lean", "OasisProofs/Helpers/Staking.lean"],
     "drivers": [
         {"name": "sharedrv",
          "quick": ["-cases", "1500", "-ops", "40"],
          "thorough": ["-cases", "30000", "-ops", "60"]},
+        # the handlers around the pool arithmetic (addEscrow, reclaimEscrow -> debonding pool and
+        # queue, debonding completion at epoch transitions, SlashEscrow, rewards with commission)
+        # run in the REAL staking application against the ledger model (C05 correspondence)
+        {"name": "ledgerdrv", "corpus": False,
+         "quick": ["-cases", "400", "-blocks", "14"],
+         "thorough": ["-cases", "8000", "-blocks", "20"]},
     ],
     "trusted_base": [
         "Lean 4.33 kernel (axioms per theorem listed under coverage.axioms; at most propext, Classical.choice, Quot.sound)",
